@@ -186,6 +186,8 @@ def _worker(job):
     _WD["miss"] = 0
     _WD["r"] = None
     _WD["task"] = {"mod": modname, "task": fname, "args": args, "env": env}
+    prev = list(_WD.setdefault("hist", []))
+    _WD["hist"].append(_WD["task"])
     try:
         mod = importlib.import_module(modname)
         f = getattr(mod, "task_" + fname)
@@ -208,6 +210,13 @@ def _worker(job):
             raise TypeError("task %s returned %r" % (fname, type(r)))
         if _WD["n"]:
             r.notes["watchdog_timeouts"] = _WD["n"]
+        # the tasks this worker process ran before this one: a violation that needs hidden library
+        # state built up by them is replayed with that history
+        seen = set()
+        for v in r.viols:
+            if v["key"] not in seen and prev:
+                seen.add(v["key"])
+                v["prev_tasks"] = prev
         return r
     except TaskAbort:
         signal.setitimer(signal.ITIMER_REAL, 0)
@@ -346,6 +355,20 @@ def replay_task(a):
     return None
 
 
+def replay_tasks(a):
+    """Re-run a sequence of explorer tasks (the ones one worker process ran, in order) and report the
+    recorded violation key if the last one shows it again."""
+    r = None
+    for t in a["tasks"]:
+        mod = importlib.import_module(t["mod"])
+        r = getattr(mod, "task_" + t["task"])(t["args"], t["env"])
+    for v in (r.viols if r is not None else []):
+        if v["key"] == a["key"]:
+            return {"key": v["key"], "expected": v["expected"], "observed": v["observed"], "note": v.get("note"),
+                    "history": "manifests only after the earlier tasks of the same worker process (history-dependent)"}
+    return None
+
+
 def run_replay_fn(fn, args):
     mod, name = fn.split(":")
     f = getattr(importlib.import_module(mod), name)
@@ -363,7 +386,7 @@ def replay_file(path):
         raise CaseTimeout()
 
     signal.signal(signal.SIGALRM, on_alarm)
-    default_to = 3600 if case.get("fn") == "mc.core:replay_task" else 300
+    default_to = 3600 if case.get("fn") in ("mc.core:replay_task", "mc.core:replay_tasks") else 300
     signal.setitimer(signal.ITIMER_REAL, float(os.environ.get("VERIF_REPLAY_TIMEOUT", default_to)))
     try:
         out = run_replay_fn(case["fn"], case["args"])
